@@ -207,6 +207,55 @@ class TwoParas(Space):
         return Outcome(viol=viol, tags=tags)
 
 
+class RefLinks(Space):
+    """Reference links and images whose label / text holds quote characters, with their definitions (a paragraph token
+    cannot carry a definition): every label x every way of writing the link x text before / after."""
+
+    prop = "C08"
+    name = "ref-links"
+    LABELS = ["it's", '"q"', "a 'b' c", "x", "O'R \"s\""]
+    FORMS = ["[{L}]", "[{L}][]", "[t {L}][{L}]", "![{L}]", "[{L}](u)", "[{L}][x]", "[it's t][{L}]"]
+    AROUND = [("", ""), ("He said \"", "\" ok"), ("'", "' it's")]
+
+    def __init__(self, tier, oracle):
+        self.oracle = oracle
+        self.widths = (88, 1) if tier == "quick" else (88, 12, 1, 0)
+        self.floors = {"converted": 50}
+
+    def cases(self):
+        for l in range(len(self.LABELS)):
+            for f in range(len(self.FORMS)):
+                for a in range(len(self.AROUND)):
+                    for w in self.widths:
+                        for sem in (False, True):
+                            yield (l, f, a, w, sem)
+
+    def text(self, case):
+        l, f, a, w, sem = case
+        L = self.LABELS[l]
+        pre, post = self.AROUND[a]
+        return f"zz {pre}{self.FORMS[f].format(L=L)}{post} end\n\n[{L}]: http://u.v/w\n\n[x]: http://x.y 'it''s'\n"
+
+    def describe(self, case):
+        return {"text": self.text(case), "width": case[3], "semantic": case[4]}
+
+    def smaller(self, case):
+        l, f, a, w, sem = case
+        if l:
+            yield (0, f, a, w, sem)
+        if f:
+            yield (l, 0, a, w, sem)
+        if a:
+            yield (l, f, 0, w, sem)
+        if w != 88:
+            yield (l, f, a, 88, sem)
+        if sem:
+            yield (l, f, a, w, False)
+
+    def evaluate(self, case):
+        return self.oracle(self, case, self.text(case), case[3], case[4])
+
+
 def spaces(tier):
     q = tier == "quick"
     oracle = make_oracle(tier)
@@ -221,4 +270,4 @@ def spaces(tier):
                      modes=(False,), floors={"converted": 100}, **kw)
     cell = ParaSpace("C08", "doc-cell", TOK, 2, oracle, docspace.contexts(0), sepnames=("sp",), widths=(88,), lead="| zz | ",
                      trail=" |\n|---|---|", modes=(False,), floors={"converted": 100}, **kw)
-    return [Fn(6 if q else 7), para, head, cell, TwoParas(tier)]
+    return [Fn(6 if q else 7), para, head, cell, TwoParas(tier), RefLinks(tier, oracle)]
